@@ -1,5 +1,7 @@
-From DB Require Import Base.Bytes Model.CodecEntry.
+From DB Require Import Base.Bytes Model.CodecEntry Model.Frame.
 Require Extraction.
 Require Import ExtrOcamlBasic.
 Extraction Language OCaml.
-Extraction "../ocaml/c13/model.ml" util_add util_mul util_divmod encode decode size size_upper_limit wf_entryb.
+Extraction "../ocaml/c13/model.ml" util_add util_mul util_divmod
+  encode decode size size_upper_limit wf_entryb
+  encode_header decode_header write_message write_header read_frame crc32.
